@@ -1,7 +1,7 @@
 (* Property C12 — derived units partition correctly. *)
 From Coq Require Import ZArith Bool List.
 From Coq Require Import Permutation.
-From GettsimModel Require Import Num Val Groupings CoupleSpec FgSpec.
+From GettsimModel Require Import Num Val Groupings CoupleSpec FgSpec BgSpec.
 Import ListNotations.
 Open Scope Z_scope.
 
@@ -138,3 +138,30 @@ Theorem C12_eg_within_fg : forall all, fg_wf all -> couple_wf einst all ->
     nth_error (eg_id all) i = nth_error (eg_id all) j -> nth_error (fg_id all) i = nth_error (fg_id all) j.
 Proof. exact eg_within_fg. Qed.
 Print Assumptions C12_eg_within_fg.
+
+(* NEEDS UNITS, any table size: the bound of C12_bg_within_fg (fewer than 100 rows per call) is replaced by a bound per
+   family — no family has 100 or more self-sufficient children under 25 — under which needs-unit ids of different families
+   never collide, a self-sufficient child under 25 forms a unit of its own, and all other members share the main unit *)
+Theorem C12_bg_within_fg_any_size : forall fg ps,
+  (forall f, In f fg -> qual_count (bg_rows fg ps) f < 100) ->
+  forall i j fi fj pi pj x,
+    nth_error fg i = Some fi -> nth_error fg j = Some fj -> nth_error ps i = Some pi -> nth_error ps j = Some pj ->
+    nth_error (bg_id fg ps) i = Some x -> nth_error (bg_id fg ps) j = Some x -> fi = fj.
+Proof. exact bg_within_fg_any_size. Qed.
+Print Assumptions C12_bg_within_fg_any_size.
+
+Theorem C12_bg_main_unit_shared : forall fg ps,
+  (forall f, In f fg -> qual_count (bg_rows fg ps) f < 100) ->
+  forall i j f pi pj xi xj,
+    nth_error fg i = Some f -> nth_error fg j = Some f -> nth_error ps i = Some pi -> nth_error ps j = Some pj ->
+    nth_error (bg_id fg ps) i = Some xi -> nth_error (bg_id fg ps) j = Some xj ->
+    qual (f, alter pi, eigenb pi) = false -> qual (f, alter pj, eigenb pj) = false -> xi = xj.
+Proof. exact bg_within_family. Qed.
+Print Assumptions C12_bg_main_unit_shared.
+
+Theorem C12_bg_self_sufficient_child_own_unit : forall fg ps i j f pi pj x,
+    nth_error fg i = Some f -> nth_error fg j = Some f -> nth_error ps i = Some pi -> nth_error ps j = Some pj ->
+    nth_error (bg_id fg ps) i = Some x -> nth_error (bg_id fg ps) j = Some x ->
+    qual (f, alter pi, eigenb pi) = true -> qual (f, alter pj, eigenb pj) = false -> False.
+Proof. exact bg_child_own_unit. Qed.
+Print Assumptions C12_bg_self_sufficient_child_own_unit.
